@@ -124,6 +124,10 @@ def gen_c12(rng, n_scripts, per_script):
                 lines.append("enc " + record_text(r))
                 # and the round trip inside the implementation: decode(encode r) re-encodes to the same bytes
                 lines.append("rt " + record_text(r))
+                if rng.chance(1, 3):
+                    # a sink with room for fewer / exactly / more bytes than the record has
+                    ln = len(record_bytes(r))
+                    lines.append(f"encf {rng.choice([ln - 1, max(0, ln - 8), ln // 2, 0, ln, ln + 5])} " + record_text(r))
                 small_fields = (r[0] in ("V", "C", "T", "P")
                                 or (r[0] == "A" and len(token_bytes(r[2])) <= 16)
                                 or (r[0] == "S" and (r[5] is None or len(token_bytes(r[5])) <= 16)))
